@@ -119,6 +119,8 @@ def _shards(tier):
                 out.append({"counts": list(counts), "rel": rel})
         else:
             out.append({"counts": list(counts)})
+    if tier == "quick":
+        out += [{"counts": [4]}, {"counts": [4, 1], "rel": "<"}, {"counts": [4, 1], "rel": "="}, {"counts": [4, 1], "rel": ">"}]
     return out
 
 
@@ -131,7 +133,7 @@ OBLIGATIONS = [Obligation(
              "openpectus.aggregator.csv_generator:_get_tick_times",
              "openpectus.aggregator.csv_generator:_write_data_rows"],
     symbolic="tick time of every recorded value: unconstrained reals (any interleaving, late start, repeats, unsorted input)",
-    bounds={"quick": "2 tags x <=3 values each, <=5 values in total", "thorough": "3 tags x <=4 values each, <=6 values in total"},
+    bounds={"quick": "2 tags x <=3 values each, <=5 values in total; plus one tag with 4 values alone and beside a tag with 1 value", "thorough": "3 tags x <=4 values each, <=6 values in total"},
     assumptions=["csv.writer replaced by a row recorder (C boundary; formatting is not the subject); None is the empty cell",
                  "DTOs built with model_construct", "floats modelled as reals",
                  "recorded values are distinct concrete labels (the generator copies them without inspecting them)",
